@@ -58,6 +58,27 @@ func raceRun(in raceInput) (summary map[string]interface{}, vars map[int]string,
 	return
 }
 
+// driver mode snapseq: PauseUs is reused as "send 'clear' every k frames"
+func snapSeqRun(in raceInput) (summary map[string]interface{}, ok bool) {
+	dir, _ := ioutil.TempDir(runDir(), "snapseq")
+	defer os.RemoveAll(dir)
+	out := filepath.Join(dir, "out")
+	os.Mkdir(out, 0755)
+	toml := fmt.Sprintf("[lepton]\nframe-output = %q\n[thermal-recorder]\noutput-dir = %q\nmin-disk-space-mb = 0\npreview-secs = %d\nmin-secs = 1\nmax-secs = 3\n[windows]\nstart-recording = \"12:00\"\nstop-recording = \"12:00\"\n[thermal-throttler]\nactivate = false\n[thermal-motion]\ntrigger-frames = %d\n",
+		filepath.Join(dir, "s"), out, in.Preview, in.Trigger)
+	ioutil.WriteFile(filepath.Join(dir, "config.toml"), []byte(toml), 0644)
+	cmd := exec.Command(buildDir() + "/tr-driver")
+	cmd.Env = append(os.Environ(), "VERIF_DRIVER=snapseq", fmt.Sprintf("VERIF_ARGS=%s %d %d", dir, in.Frames, in.PauseUs), "TZ=UTC")
+	stdout, _ := cmd.Output()
+	for _, line := range strings.Split(string(stdout), "\n") {
+		if strings.Contains(line, "snapseq-summary") {
+			json.Unmarshal([]byte(line), &summary)
+			ok = true
+		}
+	}
+	return
+}
+
 var reFrame = regexp.MustCompile(`^\s+(/\S+\.go):(\d+) `)
 
 func classifyRaces(log string) map[int]string {
@@ -150,6 +171,15 @@ func init() {
 			torn, snaps := num(sum["torn"]), num(sum["snapshots"])
 			emit(Case{Coq: fmt.Sprintf("CWhole 1 %d %d %s", snaps, torn, coqBool(ok)), Input: in, Impl: sum, Tags: []string{"whole-frame", "ring=1"}, Nontriv: snaps > 100, Key: "whole1",
 				Extra: map[string]interface{}{"finding": "ring-size-1", "expect_fail": true}})
+		}
+		// 2b. freshness (sequential schedule): after each processed frame, and again after a
+		// camera 'clear', the snapshot is the last completed frame
+		{
+			in := raceInput{Preview: 1, Trigger: 2, Frames: frames / 2, Conns: 1, Requesters: 0, PauseUs: 7}
+			sum, ok := snapSeqRun(in)
+			stale, checks := num(sum["stale"])+num(sum["stale_after_clear"]), num(sum["checks"])+num(sum["after_clear"])
+			emit(Case{Coq: fmt.Sprintf("CFresh %d %d %s", checks, stale, coqBool(ok)), Input: in, Impl: sum,
+				Tags: []string{"freshness", "clear-then-snapshot"}, Nontriv: checks > 50, Key: "fresh"})
 		}
 		// 3. data-race clause with the race detector
 		{
